@@ -246,7 +246,12 @@ pub const SEMANTIC_CHARS: &[char] = &[
 ];
 
 /// Multi-character sequences that are one unit to a reader but several to the engine.
-pub const SEMANTIC_TOKENS: &[&str] = &["\r\n", "\n\r", "\r\n\r\n", "e\u{301}", "\u{1f1fa}\u{1f1f8}", "a\u{200d}b", "\u{2028}\u{2029}", " \t", "_0"];
+pub const SEMANTIC_TOKENS: &[&str] = &[
+    "\r\n", "\n\r", "\r\n\r\n", "e\u{301}", "\u{1f1fa}\u{1f1f8}", "a\u{200d}b", "\u{2028}\u{2029}", " \t", "_0",
+    // emoji of every shape the properties of strings know: two plain ones side by side, a keycap
+    // sequence, a flag, a skin-tone modifier sequence, a ZWJ family, a tag sequence (flag of Wales)
+    "\u{1f600}\u{1f601}", "1\u{fe0f}\u{20e3}", "\u{1f1e9}\u{1f1ea}\u{1f1eb}\u{1f1f7}", "\u{1f44d}\u{1f3fd}", "\u{1f468}\u{200d}\u{1f469}\u{200d}\u{1f467}", "\u{1f3f4}\u{e0067}\u{e0062}\u{e0077}\u{e006c}\u{e0073}\u{e007f}", "\u{2764}\u{fe0f}",
+];
 
 /// 0-3 characters of UTF8_EDGE_CHARS / SEMANTIC_CHARS (none in about a third of the worlds).
 pub fn edge_chars(rng: &mut Rng) -> Vec<char> {
@@ -570,6 +575,12 @@ pub fn gen_world(base: u64, run: u64, profile: Profile) -> World {
             toks_a.push(t.clone());
         }
         toks_u.push(t);
+    }
+    // a pattern over a property of strings gets emoji sequences to chew on
+    if pats.iter().any(|p| p.contains("Emoji")) {
+        for _ in 0..2 {
+            toks_u.push(SEMANTIC_TOKENS[9 + wl.usize_below(SEMANTIC_TOKENS.len() - 9)].to_string());
+        }
     }
     let nhay = 1 + wl.usize_below(if profile == Profile::C19 { 4 } else { 6 });
     let mut hays: Vec<Hay> = Vec::new();
